@@ -68,12 +68,16 @@ def make_spec(st, idx, tier):
     for j in range(max_puts):
         seq.append(dict(k="poll", role="put_fault", put_fault=dict(at=j, kind=kinds[j % 2] if chance(rng, 0.5) else kinds[(j + 1) % 2]),
                         fresh_client=True, national_summary=ns))
+    # the client object that just experienced failed writes is used again, without a fault: it must write exactly what the
+    # fault-free run wrote (nothing half-done is remembered, nothing is skipped)
+    seq.append(dict(k="poll", role="after_faults", fresh_client=False, national_summary=ns))
     # call history in one process: the same argument objects (model_parameters dict, config, frame) are passed again to
     # fresh clients with other save_output choices -- an earlier request must not leak into a later one
     if chance(rng, 0.6):
         for j in range(3):
             so2 = [o for o in OPTS if chance(rng, 0.5)]
-            seq.append(dict(k="poll", role="history", fresh_client=True, reuse_args=True, override=dict(save_output=so2)))
+            # ... either to a fresh client or to the very client object that served the earlier requests
+            seq.append(dict(k="poll", role="history", fresh_client=bool(chance(rng, 0.5)), reuse_args=bool(chance(rng, 0.6)), override=dict(save_output=so2)))
     if not p["model_parameters"] or chance(rng, 0.15):
         # the keyword's default value (a shared mutable dict in the signature) instead of an explicit argument
         for j in range(2):
@@ -195,6 +199,11 @@ class Checker(C.BaseChecker):
                 for f in local:
                     if ("open", f) not in lw:
                         out.append(self.v("local_file_missing", f"{f} requested but not written", **flags))
+            if role == "after_faults" and self.base is not None:
+                st.probes["poll_on_the_client_that_saw_failed_writes"] += 1
+                if [x["key"] for x in rec.puts] != [x["key"] for x in self.base.puts] or rec.ok != self.base.ok:
+                    out.append(self.v("state_after_failed_write", f"after failed writes the same client wrote {[x['key'].split('/', 2)[-1] for x in rec.puts][:6]} (outcome {rec.exc_type}), "
+                                                                  f"the fault-free run wrote {[x['key'].split('/', 2)[-1] for x in self.base.puts][:6]}", **flags))
             if role == "base":
                 self.n_base_puts = len(rec.puts)
                 self.base = rec
